@@ -699,6 +699,16 @@ func (ev *SpecEnv) callExpr(x *ast.CallExpr) (Val, types.Type) {
 				return Scalar{IntC(0)}, nil
 			}
 			mem := ev.heapMem(sv.Region)
+			if sv.Len.IsConst() && sv.Len.Val.IsInt64() && sv.Len.Val.Int64() <= 64 {
+				// same written-out form as beval() for slices of known small length
+				n := sv.Len.Val.Int64()
+				sum := IntC(0)
+				for i := int64(0); i < n; i++ {
+					w := new(big.Int).Lsh(big.NewInt(1), uint(8*(n-1-i)))
+					sum = IAdd(sum, IMul(Select(mem, ev.ex.idxAdd(sv.Off, ev.ex.idxConst(i))), IntBig(w)))
+				}
+				return Scalar{sum}, nil
+			}
 			ev.ex.Funs["0uf_beval"] = fmt.Sprintf("(declare-fun beval (%s Int Int) Int)", mem.S)
 			return Scalar{App("beval", IntSort, mem, sv.Off, sv.Len)}, nil
 		}
@@ -832,10 +842,26 @@ func (ev *SpecEnv) callExpr(x *ast.CallExpr) (Val, types.Type) {
 		}
 		gname, _ := strconv.Unquote(lit.Value)
 		iv, ok := v.(IfaceV)
-		if !ok || iv.Sym == nil {
-			ev.fail("ghostof() needs a symbolic interface value, got %s", valString(v))
+		if ok && iv.Sym != nil && iv.Conc == nil {
+			return Scalar{ev.ex.ifaceGhost(ev.st, iv, gname)}, nil
 		}
-		return Scalar{ev.ex.ifaceGhost(ev.st, iv, gname)}, nil
+		// a value of known type: the attribute is the one declared for the type (typeattr)
+		var ct types.Type
+		var pv Val
+		if ok && iv.Conc != nil {
+			ct, pv = iv.Conc, iv.Payload
+		} else if !ok {
+			_, vt := ev.eval(x.Args[0])
+			ct, pv = vt, v
+		}
+		if ct != nil {
+			if t := ev.ex.typeAttrTerm(ev.st, pv, ct, gname); t != nil {
+				return Scalar{t}, nil
+			}
+			ev.fail("type %s declares no attribute %q (typeattr)", ct, gname)
+		}
+		ev.fail("ghostof() needs a symbolic interface value or a value of a type with typeattr, got %s", valString(v))
+		return nil, nil
 	case "implements":
 		need(2)
 		v, _ := ev.eval(x.Args[0])
